@@ -442,7 +442,7 @@ impl Pool {
     }
 
     fn spawn(&self) -> Result<Worker, String> {
-        let exe = std::env::current_exe().map_err(|e| e.to_string())?;
+        let exe = crate::self_exe();
         let mut child = Command::new(exe)
             .args(&self.args)
             .env("CBMC_DEADLINE", self.deadline_epoch_s.to_string())
